@@ -8,10 +8,11 @@ try:
     na_reasons = json.load(open(os.path.join(ROOT, "not_applicable.json")))
 except Exception:
     na_reasons = {}
+ready = set(json.load(open(os.path.join(ROOT, "ready.json"))))  # checks reviewed and registered
 for p in props:
     pid = p["id"]
     cj = os.path.join(ROOT, "checks", pid.lower(), "check.json")
-    if not os.path.exists(cj) or json.load(open(cj)).get("disabled"):
+    if pid not in ready or not os.path.exists(cj) or json.load(open(cj)).get("disabled"):
         na.append({"property_id": pid, "reason": na_reasons.get(pid, "not built yet: no check is registered for this property at this commit (this says nothing about whether the technique applies)")})
         continue
     c = json.load(open(cj))
